@@ -4,7 +4,7 @@
 EXTENDS Pattern, Json
 CONSTANT MaxParts
 TNames == {"x", "y"}
-TTypes == {"", "str", "int", "float", "unicode", "bogus"}
+TTypes == {"", "str", "int", "float", "unicode", "bogus", "Int", "int2", "str_"}      \* unknown names of every spelling
 TOps == {"", ":", "?", "*", "+", "!", "::"}
 Part == {[k |-> "lit", n |-> "-", t |-> "-", op |-> "-"], [k |-> "empty", n |-> "-", t |-> "-", op |-> "-"]}
         \cup {[k |-> "bind", n |-> n, t |-> t, op |-> op] : n \in TNames, t \in TTypes, op \in TOps}
